@@ -114,7 +114,7 @@ func TestVerif_C03(t *testing.T) {
 	defer R.Finish()
 	base := vkBase("c03")
 	defer os.RemoveAll(base)
-	R.Rule = "absent keys: (a) every skipped slot of the generated epoch (432 000-slot range, sharded), (b) constructed colliders = absent slots / signatures / CIDs / addresses whose bucket and 24-bit in-bucket hash equal those of a stored key (slot pairs computed over the whole epoch with the index's hash domain, the others by brute force over hashed candidates; colliding addresses for both kinds of stored address: newest transaction verifiable, and newest transaction a v0 transaction with a table lookup archived without metadata), (c) slots of an epoch that is not loaded, (d) JSON numbers that are not the number of a slot with a block (a stored slot plus a fraction; an integer beyond 2^53; exponent notation whose leading digits are a stored slot); each through JSON-RPC and gRPC with one and with two epochs loaded; oracle = not-found / epoch-not-available / empty list / error, never an object of another key; non-trivial = constructed collider"
+	R.Rule = "absent keys: (a) every skipped slot of the generated epoch (432 000-slot range, sharded), (b) constructed colliders = absent slots / signatures / CIDs / addresses whose bucket and 24-bit in-bucket hash equal those of a stored key (slot pairs computed over the whole epoch with the index's hash domain, the others by brute force over hashed candidates; colliding addresses for both kinds of stored address: newest transaction verifiable, newest transaction a v0 transaction with a table lookup archived without metadata, and ONLY such transactions), (c) slots of an epoch that is not loaded, (d) JSON numbers that are not the number of a slot with a block (a stored slot plus a fraction; an integer beyond 2^53; exponent notation whose leading digits are a stored slot); each through JSON-RPC and gRPC with one and with two epochs loaded; oracle = not-found / epoch-not-available / empty list / error, never an object of another key; non-trivial = constructed collider"
 	nPairs, nOther := 6, 3
 	if vkit.Thorough() {
 		nPairs, nOther = 24, 10
@@ -135,7 +135,7 @@ func TestVerif_C03(t *testing.T) {
 		// last block: a v0 transaction with an address-table lookup archived WITHOUT metadata (its loaded addresses
 		// are unknown) that mentions accounts 0..3: the newest entry of their address lists cannot be verified
 		sh.Blocks = append(sh.Blocks, cargen.BlockShape{SlotOffset: pairs[len(pairs)-1][0] + 1, Blocktime: 1_660_000_999,
-			Entries: [][]cargen.TxShape{{{Accounts: []int{0, 1, 2, 3}, Loaded: []int{6}, NoMeta: true}}}})
+			Entries: [][]cargen.TxShape{{{Accounts: []int{0, 1, 2, 3, 8}, Loaded: []int{6}, NoMeta: true}}}})
 		os.RemoveAll(filepath.Join(base, "A"))
 		e, err := vkBuildEpoch(filepath.Join(base, "A"), sh, true)
 		if err != nil {
@@ -243,12 +243,16 @@ func TestVerif_C03(t *testing.T) {
 	}
 	if task(3) {
 		seen := map[solana.PublicKey]bool{}
-		var keys, keysUnverifiable [][]byte
+		var keys, keysUnverifiable, keysOnlyUnverifiable [][]byte
 		for i := 0; i < 4; i++ {
 			a := cargen.Account(i)
 			seen[a] = true
 			keysUnverifiable = append(keysUnverifiable, append([]byte{}, a[:]...))
 		}
+		// account 8 is mentioned by that last transaction ONLY: no entry of its list can be verified
+		a8 := cargen.Account(8)
+		seen[a8] = true
+		keysOnlyUnverifiable = append(keysOnlyUnverifiable, append([]byte{}, a8[:]...))
 		for _, tx := range eA.Truth.Txs[:len(eA.Truth.Txs)-1] {
 			for _, a := range tx.Accounts {
 				if !seen[a] {
@@ -260,7 +264,7 @@ func TestVerif_C03(t *testing.T) {
 		pkIdx := filepath.Join(eA.GsfaDir, string(indexes.Kind_PubkeyToOffsetAndSize)+".index")
 		_, db, f, err := c03OpenBucketDomain(pkIdx, keys[0])
 		if err == nil {
-			for _, victims := range [][][]byte{keys, keysUnverifiable} {
+			for _, victims := range [][][]byte{keys, keysUnverifiable, keysOnlyUnverifiable} {
 				start := seed
 				for n := 0; n < nAddr; n++ {
 					cand, _, tries := c03FindCollider(db, victims, c03GenAddr, start, 1_500_000_000)
